@@ -1138,6 +1138,15 @@ fn hang_binop_expression(
                 && binop.is_right_associative() == top_binop.is_right_associative();
             let is_right_associative = binop.is_right_associative();
 
+            // The operands of this binop take their context from this binop, not from the context
+            // the whole binary expression was found in
+            let lhs_context = if let BinOp::Caret(_) = binop {
+                ExpressionContext::BinaryLHSExponent
+            } else {
+                ExpressionContext::UnaryOrBinary
+            };
+            let rhs_context = ExpressionContext::UnaryOrBinary;
+
             let test_shape = if same_op_level {
                 shape
             } else {
@@ -1183,7 +1192,7 @@ fn hang_binop_expression(
                                 },
                                 lhs_shape,
                                 lhs_range,
-                                expression_context,
+                                lhs_context,
                             ),
                             if contains_comments(&*rhs) {
                                 hang_binop_expression(
@@ -1192,7 +1201,7 @@ fn hang_binop_expression(
                                     binop,
                                     shape,
                                     lhs_range,
-                                    expression_context,
+                                    rhs_context,
                                 )
                             } else {
                                 format_expression_internal(
@@ -1211,7 +1220,7 @@ fn hang_binop_expression(
                                     binop.clone(),
                                     shape,
                                     lhs_range,
-                                    expression_context,
+                                    lhs_context,
                                 )
                             } else {
                                 let context = if let BinOp::Caret(_) = binop {
@@ -1227,7 +1236,7 @@ fn hang_binop_expression(
                                 if same_op_level { top_binop } else { binop },
                                 rhs_shape,
                                 lhs_range,
-                                expression_context,
+                                rhs_context,
                             ),
                         ),
                     };
@@ -1246,7 +1255,7 @@ fn hang_binop_expression(
                             binop.to_owned(),
                             shape,
                             lhs_range,
-                            expression_context,
+                            lhs_context,
                         )
                     } else {
                         let context = if let BinOp::Caret(_) = binop {
@@ -1258,14 +1267,7 @@ fn hang_binop_expression(
                     };
 
                     let rhs = if contains_comments(&*rhs) {
-                        hang_binop_expression(
-                            ctx,
-                            *rhs,
-                            binop,
-                            shape,
-                            lhs_range,
-                            expression_context,
-                        )
+                        hang_binop_expression(ctx, *rhs, binop, shape, lhs_range, rhs_context)
                     } else {
                         format_expression_internal(
                             ctx,
@@ -1459,13 +1461,18 @@ fn format_hanging_expression_(
         }
         Expression::BinaryOperator { lhs, binop, rhs } => {
             // Don't format the lhs and rhs here, because it will be handled later when hang_binop_expression calls back for a Value
+            let lhs_context = if let BinOp::Caret(_) = binop {
+                ExpressionContext::BinaryLHSExponent
+            } else {
+                ExpressionContext::UnaryOrBinary
+            };
             let lhs = hang_binop_expression(
                 ctx,
                 *lhs.to_owned(),
                 binop.to_owned(),
                 shape,
                 lhs_range,
-                ExpressionContext::UnaryOrBinary,
+                lhs_context,
             );
 
             let current_shape = shape.take_last_line(&lhs) + 1; // 1 = space before binop
@@ -1479,7 +1486,7 @@ fn format_hanging_expression_(
                 binop.to_owned(),
                 singleline_shape,
                 None,
-                ExpressionContext::Standard,
+                ExpressionContext::UnaryOrBinary,
             );
 
             // Examine the last line to see if we need to hang this binop, or if the precedence levels match
@@ -1498,7 +1505,7 @@ fn format_hanging_expression_(
                     binop.to_owned(),
                     hanging_shape,
                     None,
-                    ExpressionContext::Standard,
+                    ExpressionContext::UnaryOrBinary,
                 )
                 .update_leading_trivia(FormatTriviaType::Replace(Vec::new()));
             }
